@@ -56,7 +56,7 @@ def spaces(tier):
             yield ("func", X)
 
     def gen_aspect():
-        for na, nb in ((1, 70), (2, 130), (1, 300), (70, 1), (130, 2), (3, 200)):
+        for na, nb in ((1, 70), (2, 130), (1, 300), (70, 1), (130, 2), (3, 200), (2049, 2048), (1025, 4096), (4097, 1024), (2048, 2049)):
             for w in ((1, 3, 2), (1, 1, 1), (2, 1, 3)):
                 yield ("aspect", na, nb, w)
 
@@ -69,7 +69,7 @@ def spaces(tier):
         Space("condensed-layout-all-lists", gen_layout, "Lists(U(AB,2),4|5) x weights {(1,1,1),(1,2,3),(3,1,2)}: every condensed index, squareform round trip, pdist == upper triangle of cdist", shards=64),
         Space("long-string-boundary-family", gen_long, "lengths %s x shapes {x^n vs y^n, x^n vs '', x^n vs x^(n-1)y, x^n vs x^n} x 3 weight triples" % (LONG,)),
         Space("functional-pdist-cdist", gen_func, "Lists(U(AB,2),4|5) with a metric encoding (a,b) and a forwarded keyword; default metric"),
-        Space("extreme-aspect-ratios", gen_aspect, "cdist of 1-3 anchors against 70-300 comparisons (and the transposed shapes) of mixed-length strings x 3 weight triples", per_case=True),
+        Space("extreme-aspect-ratios", gen_aspect, "cdist of 1-3 anchors against 70-300 comparisons (and the transposed shapes) x 3 weight triples; matrices of about 2^22 entries (2049x2048, 1025x4096, 4097x1024, 2048x2049) with asymmetric weights", per_case=True),
         Space("free-running-rapidfuzz-threads", gen_free, "cdist(U(AB,4),U(AB,4)) x 3 weight triples with rapidfuzz's own thread pool untouched", per_case=True),
     ]
 
@@ -131,6 +131,22 @@ def check_case(case, acc):
     elif kind == "aspect":
         _, na, nb, w = case
         acc.cls("extreme-aspect-ratio")
+        if na * nb > 100000:
+            # about 2^22 matrix entries: strings drawn from a pool of 127, expected values looked up from the 127 x 127 table
+            if w != (1, 3, 2):
+                return
+            pool = E.universe("AB", 6)
+            ia = [(i * 37 + 11) % len(pool) for i in range(na)]
+            ib = [(i * 53 + 5) % len(pool) for i in range(nb)]
+            lut = np.array([[ref_wlev(a, b, *w) for b in pool] for a in pool])
+            r = acc.call(mk(w).calc_cdist_matrix, [pool[i] for i in ia], [pool[i] for i in ib])
+            expm = lut[np.array(ia)[:, None], np.array(ib)[None, :]]
+            if raised(r) or not np.array_equal(np.asarray(r), expm):
+                bad_rows = [] if raised(r) else np.flatnonzero((np.asarray(r) != expm).any(axis=1))[:5].tolist()
+                acc.fail("WeightedLevenshtein/cdist/aspect-ratio", case, "directional distances anchors -> comparisons", r if raised(r) else "differs in rows %s" % bad_rows, note="shape %dx%d" % (na, nb))
+                return
+            acc.ok((na, nb, w), nontrivial=True)
+            return
         pool = E.universe("AB", 8)
         A = [pool[(i * 37 + 11) % len(pool)] for i in range(na)]
         B = [pool[(i * 53 + 5) % len(pool)] for i in range(nb)]
@@ -232,6 +248,16 @@ def check_case(case, acc):
                 acc.fail("functional-cdist/%s" % ("kwargs" if kw else "layout"), case, expc, c)
                 return
             acc.ok((scale, tuple(exp)), nontrivial=any(exp))
+        # a metric that takes its options as **options
+        def metric_opts(a, b, **options):
+            return options.get("scale", 1) * (code[a] * 64 + code[b]) + options.get("shift", 0)
+        v = acc.call(pyrepseq.pdist, X, metric=metric_opts, dtype=np.int64, scale=3, shift=1)
+        exp = [3 * (code[X[i]] * 64 + code[X[j]]) + 1 for i in range(m_) for j in range(i + 1, m_)]
+        c = acc.call(pyrepseq.cdist, X, X[:2], metric=metric_opts, dtype=np.int64, scale=2)
+        if raised(v) or v.tolist() != exp or raised(c) or c.tolist() != [[2 * (code[a] * 64 + code[b]) for b in X[:2]] for a in X]:
+            acc.fail("functional-pdist/kwargs-to-var-keyword-metric", case, exp, v)
+            return
+        acc.ok()
         # a metric given as a callable *object* whose truth value is False (e.g. a memoising metric with an empty cache and __len__)
         class CachingMetric:
             def __init__(self):
